@@ -1,5 +1,6 @@
 import Driver.Util
 import EraVerif.Model.Limiter
+import EraVerif.Model.RpcLimit
 
 /-!
 Model driver for C15. One JSON object per line:
@@ -22,13 +23,15 @@ structure St where
 
 def str (s : String) : Json := Json.str s
 
+def cls (c : String) : List (String × Json) := [("r", str c), ("class", str c)]
+
 def resJ (s : Limiter.State) : Limiter.Res → List (String × Json)
-  | .pending => [("r", str "pending")]
-  | .granted n => [("r", str "granted"), ("t", natJ s.now), ("n", natJ n)]
-  | .cancelled => [("r", str "cancelled")]
-  | .dropped => [("r", str "dropped")]
-  | .advanced => [("r", str "advanced"), ("now", natJ s.now)]
-  | .noop => [("r", str "noop")]
+  | .pending => cls "pending"
+  | .granted n => cls "granted" ++ [("t", natJ s.now), ("n", natJ n)]
+  | .cancelled => cls "cancelled"
+  | .dropped => cls "dropped"
+  | .advanced => cls "advanced" ++ [("now", natJ s.now)]
+  | .noop => cls "noop"
   | .panic => [("panic", str "limiter")]
 
 def diag (s : Limiter.State) : List (String × Json) :=
@@ -44,13 +47,97 @@ def limOp (j : Json) : Option Limiter.Op :=
   | some "advance" => do some (.advance (← getNat j "d"))
   | _ => none
 
-def handle (st : St) (j : Json) : St × Json :=
+/-! ### The per-connection half: `Model/RpcLimit.lean` under the greedy schedule of the harness scenario
+
+The server side (CONNECT streams) of one capability; the client answers every OPEN at once and sends its
+request at once (or when a request token is released); handlers return at once (or when a handler token is
+released). After every step all enabled events are fired until nothing changes (`saturate`). -/
+
+structure Tok where
+  req : Nat
+  hnd : Nat
+  opn : Nat
+  holdReq : Bool
+  holdHnd : Bool
+  holdOpn : Bool
+deriving DecidableEq
+
+abbrev RS := RpcLimit.State
+
+def streamAct (cfg : Limiter.Cfg) (x : RS × Tok) (i : Nat) : RS × Tok :=
+  let (s, tk) := x
+  let st (e : RpcLimit.Event) := RpcLimit.step cfg .connect s e
+  match s.streams[i]? with
+  | none => (s, tk)
+  | some str =>
+    match str.phase with
+    | .closing => (st (.startAcquire i), tk)
+    | .acquiring => (st (.pollAcquire i), tk)
+    | .granted k =>
+      -- the client answers our OPEN (sent in exchange step 1) immediately, or when an open token is released
+      if k ≥ 2 && !str.peerOpen then
+        if tk.holdOpn then
+          if tk.opn > 0 then
+            (RpcLimit.step cfg .connect (st (.peerOpen i)) (.exchange i), { tk with opn := tk.opn - 1 })
+          else (s, tk)
+        else (RpcLimit.step cfg .connect (st (.peerOpen i)) (.exchange i), tk)
+      else (st (.exchange i), tk)
+    | .idle _ =>
+      if tk.holdReq then
+        if tk.req > 0 then (st (.request i), { tk with req := tk.req - 1 }) else (s, tk)
+      else (st (.request i), tk)
+    | .serving =>
+      if tk.holdHnd then
+        if tk.hnd > 0 then (st (.finish i), { tk with hnd := tk.hnd - 1 }) else (s, tk)
+      else (st (.finish i), tk)
+
+def pass (cfg : Limiter.Cfg) (n : Nat) (x : RS × Tok) : RS × Tok :=
+  (List.range n).foldl (streamAct cfg) x
+
+def saturate (cfg : Limiter.Cfg) (n : Nat) : Nat → RS × Tok → RS × Tok
+  | 0, x => x
+  | fuel + 1, x =>
+    let y := pass cfg n x
+    if y.1 = x.1 ∧ y.2 = x.2 then x else saturate cfg n fuel y
+
+def obsOf (s : RS) : Nat × Nat :=
+  (s.handled.length, s.streams.countP (fun st => st.phase = .serving))
+
+def rpcStep (cfg : Limiter.Cfg) (n : Nat) (x : RS × Tok) (j : Json) : RS × Tok :=
+  let (s, tk) := x
+  let x1 : RS × Tok :=
+    match getNat j "adv", getNat j "rel_h", getNat j "rel_r", getNat j "rel_o" with
+    | some d, _, _, _ => (RpcLimit.step cfg .connect s (.tick d), tk)
+    | _, some k, _, _ => (s, { tk with hnd := tk.hnd + k })
+    | _, _, some k, _ => (s, { tk with req := tk.req + k })
+    | _, _, _, some k => (s, { tk with opn := tk.opn + k })
+    | _, _, _, _ => (s, tk)
+  saturate cfg n 100000 x1
+
+def rpcScenario (j : Json) : Json :=
+  match getNat j "inflight", getNat j "burst", getNat j "refresh_ns", getNat j "client_streams", getArr j "steps" with
+  | some inflight, some burst, some r, some m, some steps =>
+    let cfg : Limiter.Cfg := ⟨burst, r⟩
+    let n := min inflight m
+    let tk : Tok := ⟨0, 0, 0, (getBool j "hold_requests").getD false, (getBool j "hold_handlers").getD false,
+      (getBool j "hold_opens").getD false⟩
+    let x0 := saturate cfg n 100000 (RpcLimit.init cfg n, tk)
+    let (_, obs) := steps.toList.foldl (fun (acc : (RS × Tok) × List (Nat × Nat)) st =>
+        let x := rpcStep cfg n acc.1 st
+        (x, acc.2 ++ [obsOf x.1])) (x0, [obsOf x0.1])
+    Json.mkObj [("class", str "rpc"),
+      ("starts", Json.arr (obs.map (fun o => natJ o.1)).toArray),
+      ("running", Json.arr (obs.map (fun o => natJ o.2)).toArray)]
+  | _, _, _, _, _ => badOp
+
+def handle1 (st : St) (j : Json) : St × Json :=
   match getStr j "op" with
+  | some "rpc" => (st, rpcScenario j)
   | some "init" =>
     match getNat j "burst", getInt j "refresh_s", getInt j "refresh_ns" with
     | some b, some s, some n =>
       let cfg : Limiter.Cfg := ⟨b, s * 1000000000 + n⟩
-      ({ cfg := cfg, lim := Limiter.init cfg }, Json.mkObj [("r", str "init")])
+      ({ cfg := cfg, lim := Limiter.init cfg }, Json.mkObj (cls "init"))
     | _, _, _ => (st, badOp)
   | _ =>
     match limOp j with
@@ -58,6 +145,16 @@ def handle (st : St) (j : Json) : St × Json :=
     | some op =>
       let (l', r) := Limiter.step st.cfg st.lim op
       ({ st with lim := l' }, Json.mkObj (resJ l' r ++ diag l'))
+
+/-- `{"op":"case","ops":[...]}`: a whole case in one line (replay files). -/
+def handle (st : St) (j : Json) : St × Json :=
+  match getStr j "op", getArr j "ops" with
+  | some "case", some ops =>
+    let (st', res) := ops.toList.foldl (fun (acc : St × List Json) o =>
+      let (s', r) := handle1 acc.1 o
+      (s', acc.2 ++ [r])) (st, [])
+    (st', Json.mkObj (cls "case" ++ [("res", Json.arr res.toArray)]))
+  | _, _ => handle1 st j
 
 end Driver.C15
 
